@@ -36,7 +36,8 @@ ASSUMPTIONS = [
     "kernelkill reads cgroup.events afresh before it writes cgroup.kill: the model takes that answer from the trace (Env.events), like the contents of every cgroup.procs read; in the stale stream (C03, C17) a childless candidate loses all its processes between the tick's sample and the kill (its cgroup.procs / cgroup.events / pids.current are rewritten at the first kill-accounting xattr aimed at it): the fresh read then says populated 0, the attempt signals nobody and is no success (C03.emptied_victim_is_no_success), the next-best candidate is tried",
 ]
 TRUSTED = ["harness/kill_interpose.h (libc interposition: kill, setxattr, openat, write, syscall, nanosleep, sd_bus_*)",
-           "ext4 xattrs and readdir order of the scratch directory stand in for cgroupfs"]
+           "ext4 xattrs and readdir order of the scratch directory stand in for cgroupfs",
+           "the harness's record of every read-open of cgroup.events (file lines): the acceptor takes the kernelkill branch's fresh answer (Env.events) from the read that follows the freeze write of the same cgroup; the stale stream's emptying of a cgroup (cgroup.procs / cgroup.events / pids.current rewritten inside the first setxattr aimed at it)"]
 
 
 class Ids:
